@@ -6,7 +6,7 @@
    `ouc w k` is a ghost bit: a risk-increasing action on k (borrow, withdraw, acting as classic
    liquidator) ran with its initial-margin check skipped because of IN_FLASHLOAN and no
    initial-margin check on k has passed since. *)
-Require Import Base Fixed Constants TxConstants Tx TxSpec TxToy TxLemmas TxWorldLemmas.
+Require Import Base Fixed Constants TxConstants Tx TxSpec TxToy TxLemmas TxWorldLemmas TxToyLemmas.
 Local Open Scope Z_scope.
 
 (* ---- (1) exactly when check_flashloan_can_start accepts ---- *)
@@ -33,20 +33,29 @@ Proof. exact (@fl_never_survives). Qed.
 
 (* ---- (3) the end instruction clears the flag and runs the full initial-margin check on the
         portfolio as it stands (which it leaves unchanged), never via CPI ---- *)
-Theorem C11_end_enforces_init_health : forall (BW PF : Type) (R : env BW PF) cpi (w : world BW PF) a auth w',
-  h_end_fl R cpi w a auth = Ok w' ->
+Theorem C11_end_enforces_init_health : forall (BW PF : Type) (R : env BW PF) cpi (w : world BW PF) a auth norem w',
+  h_end_fl R cpi w a auth norem = Ok w' ->
   cpi = false /\
   exists A, w_accts w a = Some A /\ a_auth A = auth /\
-    e_init_check R (w_bw w) (a_pf A) = Ok tt /\
+    (* with its risk accounts the full check on the current world; WITHOUT them (norem) the engine's own verdict on
+       an empty account list, which for the concrete engine only an account without balances passes (below) *)
+    (if norem then e_init_check_norem R (a_pf A) else e_init_check R (w_bw w) (a_pf A)) = Ok tt /\
     ofl w' a = false /\ ouc w' a = false /\
     (exists A', w_accts w' a = Some A' /\ a_pf A' = a_pf A) /\ w_bw w' = w_bw w.
 Proof. exact (@end_fl_facts). Qed.
+
+(* for the concrete engine of the correspondence: omitting the risk accounts is accepted only on an account without
+   any active balance, whose full check passes too *)
+Theorem C11_end_without_risk_accounts_only_if_empty : forall cpi (w : world tbw tpf) a auth w',
+  h_end_fl toy_env cpi w a auth true = Ok w' ->
+  exists A, w_accts w a = Some A /\ a_pf A = [] /\ toy_init_check (w_bw w) (a_pf A) = Ok tt.
+Proof. exact end_fl_norem_only_empty. Qed.
 
 Theorem C11_not_via_cpi : forall (BW PF : Type) (R : env BW PF) (w : world BW PF),
   (forall K ixes cur a r, is_ok (h_start R K ixes cur true w a r) = false) /\
   (forall K a s, is_ok (h_end R K true w a s) = false) /\
   (forall ixes cur a au e, is_ok (h_start_fl ixes cur true w a au e) = false) /\
-  (forall a au, is_ok (h_end_fl R true w a au) = false).
+  (forall a au nr, is_ok (h_end_fl R true w a au nr) = false).
 Proof. exact (@bracket_ops_not_in_cpi). Qed.
 
 (* ---- (4) liquidation (both designs), bankruptcy, transfer and nesting are impossible while the
@@ -90,6 +99,7 @@ Proof.
 Qed.
 
 Print Assumptions C11_start_checks.
+Print Assumptions C11_end_without_risk_accounts_only_if_empty.
 Print Assumptions C11_start.
 Print Assumptions C11_no_flag_survives.
 Print Assumptions C11_end_enforces_init_health.
